@@ -1,0 +1,21 @@
+// Copyright ©2011-2012 The bíogo Authors. All rights reserved.
+// Use of this source code is governed by a BSD-style
+// license that can be found in the LICENSE file.
+
+//go:build verif
+// +build verif
+
+package concurrent
+
+// VerifHook, when not nil, is called at the step markers of the package
+// (worker.start, worker.result, worker.token_returned, promise.wait.borrowed).
+// It exists only in builds with the verif tag and is used by external
+// schedule-forcing test harnesses; it must be set while no goroutine of the
+// package is running.
+var VerifHook func(point string, id int)
+
+func verifStep(point string, id int) {
+	if h := VerifHook; h != nil {
+		h(point, id)
+	}
+}
